@@ -126,6 +126,70 @@ pub fn config_load(config_file_path: &path::Path) -> Result<String, String> {
     serde_json::to_string(&config).map_err(|e| e.to_string())
 }
 
+// Plan capture. `run_plan` calls the real `app::run::handle_run` with capture armed on this
+// thread; `handle_run` hands its finished plan to `plan_capture` right before execution would
+// start and returns early when that says so. Nothing is executed, no result is stored and the
+// run pointer is not advanced; the slot directory of the aborted run is left behind, as after
+// any run that fails before execution.
+thread_local! {
+    static PLAN_CAPTURE: std::cell::RefCell<Option<Option<String>>> = const { std::cell::RefCell::new(None) };
+}
+
+pub(crate) fn plan_capture<P: serde::Serialize>(commands: &[&String], plan: &P) -> bool {
+    PLAN_CAPTURE.with(|c| {
+        let mut c = c.borrow_mut();
+        if c.is_some() {
+            let v = serde_json::json!({"commands": commands, "plan": plan});
+            *c = Some(Some(v.to_string()));
+            true
+        } else {
+            false
+        }
+    })
+}
+
+pub struct RunArgs {
+    pub commands: Vec<String>,
+    pub sequences: Vec<String>,
+    pub targets: Vec<String>,
+    pub args: Vec<String>,
+    pub argmaps: Vec<String>,
+    pub include_deps: bool,
+    pub fail_on_undefined: bool,
+    pub use_base_argmaps: bool,
+}
+
+// The plan `monorail -f <config_file_path> run ...` would execute, as JSON
+// `{"commands": [...], "plan": {...}}`. Must be polled on one thread (current-thread runtime).
+pub async fn run_plan(config_file_path: &path::Path, a: &RunArgs) -> Result<String, String> {
+    let work_path = config_file_path
+        .parent()
+        .ok_or_else(|| "config file has no parent directory".to_string())?;
+    let config = core::Config::new(config_file_path).map_err(|e| err_json(&e))?;
+    config
+        .check(config_file_path, work_path)
+        .map_err(|e| err_json(&e))?;
+    let input = app::run::HandleRunInput {
+        git_opts: core::git::GitOptions::default(),
+        commands: a.commands.iter().collect(),
+        sequences: a.sequences.iter().collect(),
+        targets: a.targets.iter().collect(),
+        args: a.args.iter().collect(),
+        argmaps: a.argmaps.iter().collect(),
+        include_deps: a.include_deps,
+        fail_on_undefined: a.fail_on_undefined,
+        use_base_argmaps: a.use_base_argmaps,
+    };
+    PLAN_CAPTURE.with(|c| *c.borrow_mut() = Some(None));
+    let r = app::run::handle_run(&config, &input, "verif run_plan", work_path).await;
+    let captured = PLAN_CAPTURE.with(|c| c.borrow_mut().take());
+    match (captured, r) {
+        (Some(Some(plan)), _) => Ok(plan),
+        (_, Err(e)) => Err(err_json(&e)),
+        (_, Ok(_)) => Err("the run completed without reaching the plan capture".to_string()),
+    }
+}
+
 #[derive(Debug, Clone)]
 pub enum Step {
     Write(Vec<u8>),
